@@ -19,7 +19,7 @@ Close(x, num, fb) ==
 Match(rv, r) ==
     /\ rv.ok = r.ok
     /\ r.ok => /\ rv.cons
-               /\ rv.lvl = r.lvl /\ rv.deg = r.deg
+               /\ rv.lvl = r.lvl /\ rv.deg = r.deg /\ rv.ld = r.ld
                /\ Abs(rv.ls - r.ls) <= ScaleTol
                /\ \A i \in Slot : Close(rv.vals[i][1], r.m[i][1], r.fb) /\ Close(rv.vals[i][2], r.m[i][2], r.fb)
 
@@ -33,7 +33,7 @@ TraceCall ==
     /\ FrameOK
 
 TraceLoad == /\ Ev.op = "Load"
-             /\ Load(Ev.o, [i \in Slot |-> Ev.v[i]], Ev.fb, Ev.ls, Ev.lvl)
+             /\ Load(Ev.o, [i \in Slot |-> Ev.v[i]], Ev.fb, Ev.ls, Ev.lvl, Ev.ld)
              /\ Match(Ev.res, reg'[Ev.o])
 
 TraceDrop == /\ Ev.op = "DropLevel" /\ ~Ev.panic /\ ~Ev.err
